@@ -83,9 +83,12 @@ def exh1(ctx: Ctx) -> List[Ob]:
         ok = member in handled_in_tree
         obs.append(ctx.ob("EXH-1", ["C06"], ti, f"Tree.iterator handles IterMethod.{member}", None, ok,
                           "" if ok else "the unordered/random methods have no node-level walker and must be served by the tree"))
+    from ..known_funcs import KNOWN_FUNCS
+
     for name in node_methods:
         for pre in ("_iter_", "_visit_"):
-            if name.startswith(pre):
+            # (a new private helper that happens to be called _iter_<something> is not a walker)
+            if name.startswith(pre) and (f"node:Node.{name}" in KNOWN_FUNCS or name[len(pre):] in vals.values()):
                 ok = name[len(pre):] in vals.values()
                 obs.append(ctx.ob("EXH-1", ["C06"], node_methods[name], f"{name} corresponds to an IterMethod value", None, ok,
                                   "" if ok else "a walker that no IterMethod value selects is dead; the value it was meant for is unsupported"))
@@ -245,14 +248,14 @@ def order_trav(ctx: Ctx) -> List[Ob]:
                           "" if ok else "the first level must be the start node's child list"))
         # next-level accumulator: bound to `cur` as the last step of each round
         last = wl.body[-1]
-        ok = isinstance(last, ast.Assign) and len(last.targets) == 1 and norm(last.targets[0]) == cur and isinstance(last.value, ast.Name)
-        nxt = last.value.id if ok else None
+        ok = isinstance(last, ast.Assign) and len(last.targets) == 1 and norm(last.targets[0]) == cur and isinstance(last.value, (ast.Name, ast.ListComp))
+        nxt = (last.value.id if isinstance(last.value, ast.Name) else cur) if ok else None
         obs.append(ctx.ob("ORDER-TRAV", ["C06"], f, f"{name}: the level list is advanced as the last step of each round", last, ok,
                           "" if ok else "the current level must be fully emitted before it is replaced by the next one"))
         if nxt is None:
             continue
         # how the next level is built: either `nxt = []` + loop over the level with nxt.extend(<node>.children),
-        # or one comprehension over the level and each node's children
+        # or one comprehension over the level and each node's children (possibly assigned to the level variable directly)
         builds = [st for st in wl.body if isinstance(st, (ast.Assign, ast.AnnAssign)) and norm(st.targets[0] if isinstance(st, ast.Assign) else st.target) == nxt]
         fors = [st for st in wl.body if isinstance(st, ast.For) and norm(st.iter) == cur]
         fl = None
@@ -322,6 +325,9 @@ def order_trav(ctx: Ctx) -> List[Ob]:
                 and _unconditional_in(ctx, f, cbs[0], fl)
             obs.append(ctx.ob("ORDER-TRAV", ["C06"], f, "_visit_level: the callback is applied to every node of the level", fl, ok,
                               "" if ok else "the callback must be called once per node"))
+            ctrl = [x for st in fl.body for x in ast.walk(st) if isinstance(x, (ast.Break, ast.Return))]
+            obs.append(ctx.ob("ORDER-TRAV", ["C06"], f, "_visit_level: a verdict on one node never ends the level (no break/return in the level loop)", fl, not ctrl,
+                              "" if not ctrl else f"`{norm(ctrl[0])}` leaves the level loop: the remaining nodes of the level (and their descendants) are never visited"))
             ok = bool(exts) and any((not pol) and is_skip_atom(e, lv) for e, pol in path_conds(ctx, f, exts[0]))
             obs.append(ctx.ob("ORDER-TRAV", ["C06"], f, "_visit_level: a skip verdict keeps the node's children out of the next level", fl, bool(ok),
                               "" if ok else "SkipBranch must suppress exactly that node's descendants"))
